@@ -41,22 +41,25 @@ Stutter == UNCHANGED vars
 TInit == Init /\ l = 1
 TReset == /\ IsEvent("Reset")          \* back to Engine's initial state
           /\ mem' = Empty /\ memSeg' = 1 /\ imm' = <<>> /\ L0' = {} /\ ing1' = {} /\ main1' = {} /\ main2' = {}
-          /\ nextFid' = 2 /\ ref' = Empty /\ writes' = 0 /\ hist' = <<>> /\ taint' = {}
+          /\ nextFid' = 2 /\ ref' = Empty /\ writes' = 0 /\ hist' = <<>> /\ taint' = {} /\ l0out' = {}
 
 TWrite == /\ l <= Len(Trace) /\ ev.e \in {"Set", "Del"} /\ l' = l + 1
           /\ Write(ev.k, MAXV, IF ev.e = "Del" THEN DEL ELSE ev.v)
 TRotate == IsEvent("Rotate") /\ Rotate
 TFlush == IsEvent("Flush") /\ (IF ev.done THEN Flush ELSE Stutter)
-TMoveL0 == IsEvent("MoveL0") /\ (IF ev.done THEN MoveL0 ELSE Stutter)
-TIngestMerge == IsEvent("IngestMerge") /\ (IF ev.done THEN IngestCompact(TRUE) ELSE Stutter)
-TIngestDrain == IsEvent("IngestDrain") /\ (IF ev.done THEN IngestCompact(FALSE) ELSE Stutter)
+\* the planner may decline a forced L0 move / ingest compaction only when there is nothing to move (no other
+\* compaction runs in these schedules): a refusal with work pending means a reservation was left behind in
+\* the compaction state (CompactState.tla, ReleaseExact)
+TMoveL0 == IsEvent("MoveL0") /\ (IF ev.done THEN MoveL0 ELSE (L0 = {} /\ Stutter))
+TIngestMerge == IsEvent("IngestMerge") /\ (IF ev.done THEN IngestCompact(TRUE) ELSE (ing1 = {} /\ Stutter))
+TIngestDrain == IsEvent("IngestDrain") /\ (IF ev.done THEN IngestCompact(FALSE) ELSE (ing1 = {} /\ Stutter))
 TCompactL1 == IsEvent("CompactL1") /\ (IF ev.done THEN CompactL1 ELSE Stutter)
 TReopen == IsEvent("Reopen") /\ Reopen
 
 TStep == TWrite \/ TRotate \/ TFlush \/ TMoveL0 \/ TIngestMerge \/ TIngestDrain \/ TCompactL1 \/ TReopen
-\* taint is a ghost of Engine's Next; it must still be assigned
+\* the ghosts of Engine's Next must still be assigned
 TNext == \/ TReset
-         \/ (TStep /\ taint' = taint \cup {k \in Keys : Witness(k)'} /\ Match)
+         \/ (TStep /\ Ghosts({}) /\ Match)
 TSpec == TInit /\ [][TNext]_tvars
 
 TraceAccepted ==
